@@ -19,6 +19,7 @@ from __future__ import annotations
 import asyncio
 import asyncio.tasks
 import copy
+import enum
 import logging
 import sys
 from asyncio import events, exceptions, futures
@@ -333,12 +334,57 @@ def _snapshot_registries(pa) -> None:
         walk(reg)
 
 
+_class_state: list = []  # (class, attribute, pristine mutable container) for every class defined in a pyairtouch module
+_class_state_done = False
+
+
+def _snapshot_classes() -> None:
+    """Mutable containers held as CLASS attributes (a list or dict written at class level is shared by every instance, and
+    in a worker process by every simulated run): record them once, restore them in place at the start of each run."""
+    global _class_state_done
+    if _class_state_done:
+        return
+    _class_state_done = True
+    import sys
+
+    for name, mod in sorted(sys.modules.items()):
+        if mod is None or not (name == "pyairtouch" or name.startswith("pyairtouch.")):
+            continue
+        for cname, cls in sorted(vars(mod).items(), key=lambda kv: kv[0]):
+            if not isinstance(cls, type) or cls.__module__ != name or isinstance(cls, enum.EnumMeta):
+                continue
+            for attr, val in sorted(vars(cls).items(), key=lambda kv: kv[0]):
+                if attr.startswith("__"):
+                    continue
+                if isinstance(val, (list, dict, set, bytearray)):
+                    _class_state.append((cls, attr, val, copy.copy(val)))
+
+
+def _restore_classes() -> None:
+    for (cls, attr, live, pristine) in _class_state:
+        try:
+            if live != pristine or type(live) is not type(pristine):
+                if isinstance(live, list):
+                    live[:] = pristine
+                elif isinstance(live, bytearray):
+                    live[:] = pristine
+                else:
+                    live.clear()
+                    live.update(pristine)
+            if vars(cls).get(attr) is not live:
+                setattr(cls, attr, live)
+        except Exception:  # noqa: BLE001 - elements that cannot be compared: replace wholesale
+            setattr(cls, attr, copy.copy(pristine))
+
+
 def begin_run(order_fn, first_packet_id: int = 0) -> FakeSocketModule:
     """Reset process-global state at the start of a run."""
     global _order_fn
     pa = _mods()
     _order_fn = order_fn
     _snapshot_registries(pa)
+    _snapshot_classes()
+    _restore_classes()
     for (o, plain, names) in _pristine:
         d = o.__dict__
         for k in [k for k in d if k not in names]:
